@@ -310,3 +310,4 @@ not_reproduced()
 # level text addendum (cases added after the seeded-change rounds)
 LEVEL_TEXT = LEVEL_TEXT + " Also: acquired vs saved nidq layouts, recent-style headers, streams saved without a sync channel, '%g'-formatted lists."
 LEVEL_TEXT = LEVEL_TEXT + ' Round 6: string values made of digits, dashes, commas and dots only (dates, ranges, placeholders).'
+LEVEL_TEXT = LEVEL_TEXT + ' Round 7: tilde-prefixed keys with plain numeric values in the read-write-read law.'
